@@ -100,8 +100,16 @@ gated_calc_file_signature.__module__ = 'gambit.sigs.calc'
 gated_calc_file_signature.__qualname__ = gated_calc_file_signature.__name__ = 'calc_file_signature'
 
 
+_CREATED = []      # executors the library created during the current run (shut down by the harness afterwards if the library kept them)
+
+
 def recording(base):
 	class Rec(base):
+		def __init__(self, *a, **kw):
+			super().__init__(*a, **kw)
+			self._verif_shut = False
+			_CREATED.append(self)
+
 		def submit(self, fn, *a, **kw):
 			ctl = _CTL
 			fut = super().submit(fn, *a, **kw)
@@ -118,6 +126,7 @@ def recording(base):
 
 		def shutdown(self, *a, **kw):
 			_CTL.shutdown_called = True
+			self._verif_shut = True
 			return super().shutdown(*a, **kw)
 	Rec.__name__ = Rec.__qualname__ = base.__name__
 	return Rec
@@ -302,6 +311,8 @@ def run_one(sh, ks, files, expected, mode, w, order, p, fault, faultkind):
 	import gambit.sigs.calc as calc
 	from gambit.sigs.base import SignatureList
 	n = len(files)
+	fixtures.reset_gambit_globals()        # each run starts from the state of a freshly imported library (a pool kept from the previous run is shut down)
+	del _CREATED[:]
 	ctl = Ctl(n, files, mp=(mode == 'processes'))
 	_CTL = ctl
 	manual = ManualExecutor() if mode == 'executor' else None
@@ -324,6 +335,13 @@ def run_one(sh, ks, files, expected, mode, w, order, p, fault, faultkind):
 			ctl.tick.notify_all()
 		th.join(TIMEOUT + 5)
 		calc.ThreadPoolExecutor, calc.ProcessPoolExecutor, calc.calc_file_signature = saved
+		kept = [ex for ex in _CREATED if not ex._verif_shut]
+		for ex in kept:
+			# an implementation may keep its own pool alive between calls (nothing in the property forbids it); its workers carry this run's
+			# gates, so the harness ends them here - every run is judged on a pool of its own
+			fixtures.end_executor(ex)
+		if kept:
+			ctl.kept_own_executor = True
 	if th.is_alive():
 		raise HarnessError('controller thread stuck')
 	if ctl.error:
@@ -357,9 +375,8 @@ def run_one(sh, ks, files, expected, mode, w, order, p, fault, faultkind):
 	if manual is not None and ctl.shutdown_called:
 		sh.violation('caller-executor-shut-down', case, 'left open', 'shutdown called')
 		return
-	if manual is None and not ctl.shutdown_called:
-		sh.violation('own-executor-not-shut-down', case)
-		return
+	if manual is None and getattr(ctl, 'kept_own_executor', False):
+		sh.count('runs_where_the_library_kept_its_own_pool_alive')      # not judged: the statement says nothing about the lifetime of the library's own pools
 	if list(order) != sorted(order):
 		sh.nontrivial += 1
 		sh.count('orders_differing_from_submission_order')
@@ -381,6 +398,8 @@ def plan(tier, seed):
 	tasks.append(('t_sequential', dict(n=n)))
 	for pi in range(len(REPEATS)):
 		tasks.append(('t_repeated', dict(pi=pi)))
+	for mi in range(len(CWD_MODES)):
+		tasks.append(('t_cwd_histories', dict(mi=mi, depth=3 if tier == 'quick' else 4)))
 	for mode in ('threads', 'processes', 'executor'):
 		tasks.append(('t_many_files', dict(mode=mode, tier=tier)))
 	# call HISTORIES: state carried from one call to the next (same thread / reused executor), incl. calls that fail mid-file
@@ -462,6 +481,76 @@ def t_repeated(pi, only=None):
 	sh.count('repeated_entry_lists', 1)
 	sh.states, sh.transitions = nstates, ntrans
 	sh.sample(dict(family='repeated', pattern=pat, orders=len(orders)))
+	return sh
+
+
+# relative file names and a working directory that changes between calls (a pipeline that cd's into one sample directory after the other)
+CWD_MODES = [(None, 0), ('threads', 1), ('threads', 2), ('processes', 1), ('processes', 2), ('processes', None), ('reused-thread-executor', 2)]
+
+
+def t_cwd_histories(mi, depth, only=None):
+	"""Every sequence (length 2..depth, at least one change) of working directories A / B / C, each holding files with the SAME relative names
+	and different contents; every call names its files relatively.  Each call must return the single-file signatures of the files those names
+	denote at the time of the call.  One process per history sequence of calls, real executors, nothing gated."""
+	from gambit.seq import SequenceFile
+	from gambit.sigs.calc import calc_file_signature, calc_file_signatures
+	from gambit.sigs.base import SignatureList
+	sh = Shard()
+	mode, w = CWD_MODES[mi]
+	ks = fixtures.kspec(11, 'ATGAC')
+	old = os.getcwd()
+	with fixtures.workdir('c13c') as d:
+		names = ['f0.fa', 'f1.fa.gz', 'f2.fa']
+		dirs = {}
+		for di, dn in enumerate('ABC'):
+			dd = os.path.join(d, dn)
+			os.makedirs(dd)
+			made = make_files(os.path.join(dd, 'src'), 5)
+			# directory A holds the contents of files 0,1,2; B of 2,3,0 ...: same names, different genomes
+			for j, nm in enumerate(names):
+				src = made[(j + 2 * di) % 5]
+				contigs_gz = str(src.path).endswith('.gz')
+				data = gzip.open(src.path, 'rb').read() if contigs_gz else open(src.path, 'rb').read()
+				with (gzip.open(os.path.join(dd, nm), 'wb') if nm.endswith('.gz') else open(os.path.join(dd, nm), 'wb')) as f:
+					f.write(data)
+			dirs[dn] = dd
+		files = [SequenceFile(nm, 'fasta', 'gzip' if nm.endswith('.gz') else None) for nm in names]
+		try:
+			for L in range(2, depth + 1):
+				for hist in itertools.product('ABC', repeat=L):
+					if len(set(hist)) < 2 or (only is not None and list(hist) != only):
+						continue
+					fixtures.reset_gambit_globals()
+					ex = ThreadPoolExecutor(max_workers=w) if mode == 'reused-thread-executor' else None
+					kw = dict(executor=ex) if ex is not None else dict(concurrency=mode, **({'max_workers': w} if mode and w else {}))
+					try:
+						for step, dn in enumerate(hist):
+							os.chdir(dirs[dn])
+							exp = [calc_file_signature(ks, f) for f in files]
+							sh.evals += 1
+							sh.transitions += 1
+							sh.traces += 1
+							case = dict(mode='cwd-history', concurrency=mode, workers=w, n=len(files), order=None, pre_completed=0, fault=None, faultkind=None, history=list(hist[:step + 1]))
+							try:
+								res = calc_file_signatures(ks, files, **kw)
+							except BaseException as e:
+								sh.violation('unexpected-exception', case, 'one signature per file', repr(e))
+								break
+							if not (isinstance(res, SignatureList) and len(res) == len(exp) and all(isinstance(a, np.ndarray) and np.array_equal(a, b) and a.dtype == b.dtype for a, b in zip(res, exp))):
+								sh.violation('result-depends-on-earlier-calls', case, [e.tolist()[:5] for e in exp], [None if r is None else np.asarray(r).tolist()[:5] for r in res])
+								break
+							if step:
+								sh.nontrivial += 1
+								sh.count('calls_after_a_change_of_working_directory')
+					finally:
+						os.chdir(old)
+						if ex is not None:
+							ex.shutdown(wait=True)
+		finally:
+			os.chdir(old)
+			fixtures.reset_gambit_globals()
+	sh.states = 3
+	sh.sample(dict(family='cwd-histories', concurrency=mode, workers=w, depth=depth))
 	return sh
 
 
@@ -810,6 +899,9 @@ def replay(case, kind=None):
 		return [v for v in vs if v['case'].get('history') == case['history'] and v['case'].get('k') == case.get('k')][:1]
 	if case['mode'] == 'bodies':
 		return [v for v in t_bodies(case['pair'], 2).violations if v['case'].get('schedule') == case['schedule']][:1] or t_bodies(case['pair'], 2).violations[:1] and []
+	if case['mode'] == 'cwd-history':
+		mi = CWD_MODES.index((case['concurrency'], case['workers']))
+		return t_cwd_histories(mi, len(case['history']), only=list(case['history'])).violations[:1]
 	if case.get('repeated'):
 		pi = REPEATS.index(case['repeated'])
 		only = ['free', case.get('concurrency'), case['workers']] if case['mode'] == 'repeated-free-running' else (list(case['order']), case['pre_completed'], 'executor')
